@@ -45,7 +45,6 @@ type Gen struct {
 	FeeProb   float64 // probability a tx pays a fee
 	Actors    []*chain.Actor
 	Pool3     bool
-	extra     []func(g *Gen, ac *chain.Actor) sdk.Msg
 	names     []string
 	total     int
 }
@@ -445,16 +444,12 @@ func (g *Gen) Op(name string, ac *chain.Actor, ctx sdk.Context) sdk.Msg {
 		ids = append(ids, 32767)
 		return &mctypes.MsgClaimRewards{Sender: me, PoolIds: ids}
 	}
-	for _, f := range g.extra {
-		if m := f(g, ac); m != nil {
-			return m
-		}
+	if m := CommitOps(g, ac, name, ctx); m != nil {
+		return m
 	}
 	return nil
 }
 
-// AddOp registers a custom operation provider tried for unknown op names.
-func (g *Gen) AddOp(f func(g *Gen, ac *chain.Actor) sdk.Msg) { g.extra = append(g.extra, f) }
 
 // Block draws the transactions of one block: at most one per actor.
 func (g *Gen) Block() []*chain.TxRecord {
